@@ -20,7 +20,9 @@ EBUNCH_P = {'ebunch', 'ebunch_to_add', 'edges'}
 
 
 def callables_of(cls):
-    """public functions defined on a networkx base class, plus the dynetx overrides the statement names"""
+    """every public function of the networkx base class's API, resolved on the dynetx class (inherited or
+    overridden there), plus the dynetx-only names the statement lists"""
+    nxbase = nx.DiGraph if issubclass(cls, nx.DiGraph) else nx.Graph
     out = []
     for name in sorted(dir(cls)):
         if name.startswith('_'):
@@ -29,8 +31,11 @@ def callables_of(cls):
         if not inspect.isfunction(attr):
             continue
         mod = getattr(attr, '__module__', '') or ''
+        base_attr = inspect.getattr_static(nxbase, name, None)
         if mod.startswith('networkx'):
             out.append((name, 'inherited'))
+        elif base_attr is not None and (inspect.isfunction(base_attr) or name in BLOCKED):
+            out.append((name, 'override'))
         elif name in BLOCKED:
             out.append((name, 'override'))
     return out
@@ -110,6 +115,7 @@ def check_state(conf, hist, G0, M):
     cnt = {'calls': 0, 'mutating_calls': 0, 'unsynthesised': 0, 'frozen_calls': 0}
     times = observe.probe_times(G0, conf)
     snap0 = observe.snapshot(G0, conf, times)
+    probe_nodes = observe.probe_nodes(G0, conf)
     key0 = observe.canon_impl(G0)
     G = G0
 
@@ -138,7 +144,20 @@ def check_state(conf, hist, G0, M):
                 cnt['mutating_calls'] += 1
                 s1 = observe.snapshot(G, conf, times)
                 diff = interaction_diff(snap0, s1)
-                if diff and True:
+                if name in ('clear', 'clear_edges') and out == 'ok':
+                    # the two documented removers: everything must be gone, consistently (well-formedness below)
+                    left = [c for c in ('presence', 'ever', 'ids', 'stream', 'timelines') if s1[c]]
+                    if left or (name == 'clear' and s1['nodes']) or (name == 'clear_edges' and s1['nodes'] != snap0['nodes']):
+                        bad('remover-left-something', {'call': name + '()', 'still there': left, 'nodes': repr(s1['nodes'])[:200]}, callable=name)
+                    for n in probe_nodes:
+                        try:
+                            leftovers = (list(G.in_interactions([n])) + list(G.predecessors(n))) if G.is_directed() and n in G else []
+                        except Exception:
+                            leftovers = ['raises']
+                        if leftovers:
+                            bad('remover-left-something', {'call': name + '()', 'in-side of': repr(n), 'left': repr(leftovers)[:200]}, callable=name, side='in')
+                            break
+                elif diff:
                     bad('interaction-state-changed', {'call': '%s%r %r' % (name, args, kw), 'outcome': out, 'changed': diff},
                         callable=name, components=diff)
                 elif name not in NODE_ONLY and name != 'update' and observe.snapshot_diff(snap0, s1):
